@@ -672,7 +672,7 @@ static int ClientHelloExt(ssl_t *ssl,
                     ssl->sessionIdLen = 0;
                 }
                 /* Issue another one if we have any keys */
-                if (ssl->keys && ssl->keys->sessTickets)
+                if (matrixSslHaveSessionTicketKeys(ssl->keys))
                 {
                     ssl->sid->sessionTicketState = SESS_TICKET_STATE_RECVD_EXT;
                 }
@@ -688,7 +688,7 @@ static int ClientHelloExt(ssl_t *ssl,
         else
         {
             /* Request for session ticket.  Can we honor? */
-            if (ssl->keys && ssl->keys->sessTickets)
+            if (matrixSslHaveSessionTicketKeys(ssl->keys))
             {
                 ssl->sid->sessionTicketState = SESS_TICKET_STATE_RECVD_EXT;
             }
